@@ -14,6 +14,8 @@ EXPLANATION = (
     "gen_range range is non-empty given k >= 1 (asserted in new; k is never written afterwards). Getters read the fields."
     " Completeness: every path of add either appends or refutes i < k (no item of the fill phase is dropped). A float draw feeding ln(1 - x) must come from the half-open range. C19's clear rule is applied to the sampler."
 )
+from .common import NEW_WRITERS_NOTE as _NWN
+EXPLANATION = EXPLANATION + _NWN % "18"
 NOT_DECIDED = "nothing of the validity clause; uniformity is C05"
 ASSUMPTIONS = ["rand::Rng::gen_range(a..b) returns a value in [a,b) and panics only on an empty range", "Vec::push appends one element; IndexMut on Vec panics only when out of range"]
 
@@ -21,6 +23,8 @@ RS = "reservoirsampling::ReservoirSampling"
 
 
 def run(ctx):
+    from .common import check_new_writers
+    check_new_writers(ctx, "R18-new-writers", ['reservoirsampling::ReservoirSampling'])
     prog = ctx.prog
     add = ctx.anchor(RS + "::add")
     new = ctx.anchor(RS + "::new")
